@@ -124,4 +124,55 @@ theorem isometrize_shift (Q : Nat → Nat → ℝ) (anis : Nat → ℝ) (dim : N
   refine sum_congr rfl fun e he => ?_
   rw [hx e (mem_range.mp he)]; ring
 
+/-! ### `Fourier.update` as a state machine: coherence of the derived grid -/
+
+/-- the code's model comparison is exact on the anisotropy ratios (it is NOT: `compare` uses `np.isclose`) -/
+def EqvExact (eqv : Mdl ℝ → Mdl ℝ → Bool) : Prop := ∀ a b, eqv a b = true → ∀ d, a.anis d = b.anis d
+
+/-- the grid of a state is the one derived from its period, the anisotropy `anis` and its mode counts -/
+structure GridOK (st : St ℝ) (anis : Nat → ℝ) : Prop where
+  dk : ∀ d, st.deltaK d = deltaK st.period anis d
+  modes : ∀ d n, st.modes1d d n = mode1d (st.modeNo d) (st.deltaK d) n
+  even : ∀ d, modeLen (st.modeNo d) = st.modeNo d
+
+structure Coherent (st : St ℝ) : Prop where
+  grid : GridOK st st.model.anis
+  fresh : st.fresh = true
+  zlen : st.zLen = gridN st.modeNo st.model.dim
+  hasModel : st.hasModel = true
+
+def Inv (st : St ℝ) : Prop := st.hasPeriod = true → Coherent st
+
+theorem modeLen_modeLen (m : Nat) : modeLen (modeLen m) = modeLen m := by unfold modeLen; omega
+
+theorem setModes_modes (st : St ℝ) (mreq : Nat → Nat) :
+    (∀ d n, (setModes st mreq).modes1d d n = mode1d ((setModes st mreq).modeNo d) ((setModes st mreq).deltaK d) n) ∧
+    (∀ d, modeLen ((setModes st mreq).modeNo d) = (setModes st mreq).modeNo d) ∧
+    (setModes st mreq).deltaK = st.deltaK ∧ (setModes st mreq).period = st.period ∧
+    (setModes st mreq).hasPeriod = st.hasPeriod ∧ (setModes st mreq).model = st.model ∧
+    (setModes st mreq).hasModel = st.hasModel := by
+  refine ⟨fun d n => ?_, fun d => ?_, rfl, rfl, rfl, rfl, rfl⟩
+  · show mode1d (mreq d) (st.deltaK d) n = mode1d (modeLen (mreq d)) (st.deltaK d) n
+    rw [mode1d_modeLen]
+  · exact modeLen_modeLen _
+
+theorem resetSeed_coherent (st : St ℝ) (seed : Option Nat) (hg : GridOK st st.model.anis) (hm : st.hasModel = true) :
+    Coherent (resetSeed st seed) :=
+  ⟨⟨hg.dk, hg.modes, hg.even⟩, rfl, rfl, hm⟩
+
+theorem setSeed_coherent (st : St ℝ) (s : Nat) (h : Coherent st) : Coherent (setSeed st s) := by
+  unfold setSeed
+  split
+  · exact resetSeed_coherent st _ h.grid h.hasModel
+  · exact h
+
+theorem gridOK_setModes (st : St ℝ) (mreq : Nat → Nat) (anis : Nat → ℝ)
+    (hdk : ∀ d, st.deltaK d = deltaK st.period anis d) : GridOK (setModes st mreq) anis :=
+  ⟨hdk, (setModes_modes st mreq).1, (setModes_modes st mreq).2.1⟩
+
+theorem resetSeed_model_coherent (st : St ℝ) (m : Mdl ℝ) (seed : Option Nat) (hg : GridOK st m.anis) :
+    Coherent (resetSeed { st with model := m, hasModel := true } seed) :=
+  ⟨⟨hg.dk, hg.modes, hg.even⟩, rfl, rfl, rfl⟩
+
+
 end GSV.Fourier
